@@ -15,6 +15,17 @@ RATE = 64.0
 SLOW = 1.0 / 300       # 600 s = 2 samples
 
 
+def NATIVE(dtype):
+    """Sample type up to byte order (concatenating big-endian files gives NumPy's native type with the same values)."""
+    return str(np.dtype(dtype).newbyteorder('='))
+
+
+def DTNAME(dtype):
+    """A file-name-safe name that keeps the byte order apart (int16 vs big-endian int16)."""
+    d = np.dtype(dtype)
+    return d.name + ('_be' if d.byteorder == '>' else '')
+
+
 def cells(n, nch=NCH):
     """The recording whose cell (r, c) holds the identity r * nch + c + 1."""
     return (np.arange(n * nch) + 1).reshape((n, nch))
@@ -55,23 +66,26 @@ class Readers(object):
         for offset, dtype in variants:
             paths = []
             for k in range(len(parts)):
-                p = d / ('p%d_%d_%s.bin' % (9 + k, offset, np.dtype(dtype).name))   # p9, p10, ...: given order is not name order
+                p = d / ('p%d_%d_%s.bin' % (9 + k, offset, DTNAME(dtype)))   # p9, p10, ...: given order is not name order
                 write_flat(p, full[bounds[k]:bounds[k + 1]].astype(dtype), offset=offset)
                 paths.append(p)
             arg = paths if len(paths) > 1 else paths[0]
             r = get_ephys_reader(arg, sample_rate=RATE, dtype=dtype, n_channels=NCH, offset=offset)
-            self.readers.append(('flat+%d/%s' % (offset, np.dtype(dtype).name), r, np.dtype(dtype), True))
+            self.readers.append(('flat+%d/%s' % (offset, DTNAME(dtype)), r, np.dtype(dtype), True))
             if offset == 0:
                 # the same files at a sampling rate that makes the 600 s chunk TWO samples long: file lengths are
                 # then multiples of the chunk length or not (shape / n_samples / duration come from the chunk bounds)
                 r2 = get_ephys_reader(arg, sample_rate=SLOW, dtype=dtype, n_channels=NCH, offset=offset)
-                self.rates['slow/%s' % np.dtype(dtype).name] = SLOW
-                self.readers.append(('slow/%s' % np.dtype(dtype).name, r2, np.dtype(dtype), True))
+                self.rates['slow/%s' % DTNAME(dtype)] = SLOW
+                self.readers.append(('slow/%s' % DTNAME(dtype), r2, np.dtype(dtype), True))
         if with_single and len(parts) == 1:
             a = full.astype(np.int16)
             self.readers.append(('array', get_ephys_reader(a, sample_rate=RATE), a.dtype, True))
             np.save(d / 'a.npy', full.astype(np.int32))
             self.readers.append(('npy', get_ephys_reader(d / 'a.npy', sample_rate=RATE),
+                                 np.dtype(np.int32), True))
+            np.save(d / 'af.npy', np.asfortranarray(full.astype(np.int32)))       # the same array in Fortran order
+            self.readers.append(('npyF', get_ephys_reader(d / 'af.npy', sample_rate=RATE),
                                  np.dtype(np.int32), True))
             for cs in (2, 5):
                 cbin, ch = make_cbin(d, full.astype(np.int16), chunk_samples=cs,
@@ -116,12 +130,12 @@ def read(reader, req, cols, as_array=False):
         rows, colsout = as_list(r[:, 0]), as_list(c[0, :])
     else:
         rows, colsout = [], []
-    return dict(rows=rows, cols=colsout, shape=list(out.shape), dtype=str(out.dtype), lazy=lazy)
+    return dict(rows=rows, cols=colsout, shape=list(out.shape), dtype=NATIVE(out.dtype), lazy=lazy)
 
 
 def attrs_of(reader):
     return dict(shape=as_list(reader.shape), n_samples=int(reader.n_samples),
-                n_channels=int(reader.n_channels), dtype=str(np.dtype(reader.dtype)),
+                n_channels=int(reader.n_channels), dtype=NATIVE(reader.dtype),
                 duration=float(reader.duration), part_bounds=as_list(reader.part_bounds))
 
 
@@ -140,7 +154,7 @@ def _compare(ctx, case, rd):
                 continue
             exp_shape = [len(case['rows']), len(case['colsOut'])]
             if (obs.get('rows') != case['rows'] or obs.get('cols') != case['colsOut'] or
-                    obs.get('shape') != exp_shape or obs.get('dtype') != str(dtype)):
+                    obs.get('shape') != exp_shape or obs.get('dtype') != NATIVE(dtype)):
                 ctx.violation('index', '%s reader over parts %r: item %r cols %s returned %r; '
                               'specification rows %r cols %r dtype %s' % (
                                   name, case['parts'], req, cols, obs, case['rows'],
@@ -155,7 +169,7 @@ def _check_attrs(ctx, parts, rd):
         bounds.append(bounds[-1] + p)
     for name, reader, dtype, _ in rd.readers:
         a = attrs_of(reader)
-        exp = dict(shape=[n, NCH], n_samples=n, n_channels=NCH, dtype=str(dtype),
+        exp = dict(shape=[n, NCH], n_samples=n, n_channels=NCH, dtype=NATIVE(dtype),
                    duration=n / rd.rates.get(name, RATE), part_bounds=bounds if not name.startswith('cbin') else [0, n])
         if a != exp:
             ctx.violation('attrs', '%s reader over parts %r has attributes %r, expected %r' % (
@@ -278,8 +292,9 @@ def run(ctx):
     path.unlink()
     if k != n:
         raise MachineryError('read %d of %d cases' % (k, n))
-    variants = [(0, np.int16), (3, np.uint8), (7, np.float32)] if ctx.quick else [
-        (0, np.int16), (3, np.uint8), (7, np.float32), (0, np.int32), (3, np.float64), (64, np.int16)]
+    # ('>i2': samples in NON-native byte order)
+    variants = [(0, np.int16), (3, np.uint8), (7, np.float32), (0, np.dtype('>i2'))] if ctx.quick else [
+        (0, np.int16), (3, np.uint8), (7, np.float32), (0, np.int32), (3, np.float64), (64, np.int16), (0, np.dtype('>i2')), (3, np.dtype('>f4'))]
     for parts, cases in sorted(by_layout.items()):
         rd = None
         with ctx.guard('open', dict(parts=list(parts))):
